@@ -281,6 +281,12 @@ def run(ctx, model):
         gen = [(a, q, c) for i, a in enumerate(atoms) for j, q in enumerate(quants) for k, c in enumerate(contexts) if (i + j + k) % 3 == 0]
     else:
         gen = [(a, q, c) for a in atoms for q in quants for c in contexts]
+    # classes whose text ENDS in an escaped backslash (`[/\\]`), followed by further classes: a guard that searches a
+    # "simplified" text in which classes were collapsed by a regex that takes `\]` for an escaped bracket loses the
+    # quantifier between the two classes (all tiers: every quantifier form, with a class to the right / on both sides)
+    bs_atoms = [("[/\\\\]", "Class"), ("[\\d\\\\]", "Class"), ("[^\\\\]", "Class")]
+    bs_contexts = [("{}[rs]", "Other"), ("{}\\d[rs]", "Other"), ("[rs]{}[tu]", "Other"), ("{}", None), ("{}r", "Other"), ("({})[rs]", "Other")]
+    gen = gen + [(a, q, c) for a in bs_atoms for q in quants for c in bs_contexts]
     seen_txt = {c[2] for c in catalogue}
     for (atext, atag), q, (tmpl, ctag) in gen:
         text = tmpl.format(atext + q)
